@@ -66,6 +66,36 @@ pub fn huffman_case(case: &Value, _mode: &str, rep: &mut Report) {
     match r { Ok((out, checks)) => { rep.checks += checks; for d in out { bad(rep, d); } } Err(m) => bad(rep, format!("panic: {}", m)) }
 }
 
+/// Integer-valued f32 weights whose sums are rounded by f32 addition: the specification predicts the exact codebook of the
+/// float constructors (merging with IEEE-754 round-to-nearest-even at 24 bits); encoder and decoder trees must both have it.
+pub fn huffman_f32_case(case: &Value, _mode: &str, rep: &mut Report) {
+    let w: Vec<u32> = case["weights"].as_array().unwrap().iter().map(|x| x.as_u64().unwrap() as u32).collect();
+    let cb: Vec<Vec<bool>> = case["codebook"].as_array().unwrap().iter().map(bits_of).collect();
+    let n = w.len();
+    if case["exact_differs"].as_bool() == Some(true) { rep.class("f32_rounding_changes_the_code"); }
+    let r = guarded(|| {
+        let wf: Vec<f32> = w.iter().map(|x| *x as f32).collect();
+        let mut out: Vec<String> = vec![]; let mut checks = 0u64;
+        for (x, f) in w.iter().zip(&wf) { if *f as f64 != *x as f64 { out.push(format!("harness: weight {} is not an f32", x)); } }
+        let e = EncoderHuffmanTree::from_float_probabilities::<f32, _>(&wf).unwrap();
+        let d = DecoderHuffmanTree::from_float_probabilities::<f32, _>(&wf).unwrap();
+        for s in 0..n {
+            checks += 3;
+            let p = prefix(&e, s); let sfx = suffix(&e, s);
+            if p.as_ref() != Ok(&cb[s]) { out.push(format!("EncoderHuffmanTree::from_float_probabilities::<f32>({:?}): codeword of symbol {} = {:?}, spec (f32 sums) {:?}", wf, s, p, cb[s])); }
+            let mut rv = cb[s].clone(); rv.reverse();
+            if sfx.as_ref() != Ok(&rv) { out.push(format!("EncoderHuffmanTree::from_float_probabilities::<f32>({:?}): suffix form of symbol {} = {:?}", wf, s, sfx)); }
+            let mut bits = cb[s].clone(); bits.extend([false, true]);
+            let r = decode(&d, &bits);
+            if r != Ok((s, cb[s].len())) { out.push(format!("DecoderHuffmanTree::from_float_probabilities::<f32>({:?}): decoding {:?} gives {:?}, expected symbol {}", wf, cb[s], r, s)); }
+            // what the encoder emits must decode to the same symbol with the decoder built from the same weights
+            if let Ok(pb) = &p { let mut b2 = pb.clone(); b2.extend([true, false]); let r2 = decode(&d, &b2); if r2 != Ok((s, pb.len())) { out.push(format!("f32 Huffman trees disagree for weights {:?}: encoder emits {:?} for symbol {}, decoder reads {:?}", wf, pb, s, r2)); } }
+        }
+        (out, checks)
+    });
+    match r { Ok((out, checks)) => { rep.checks += checks; for d in out { rep.mismatch(case, d); } } Err(m) => rep.mismatch(case, format!("panic: {}", m)) }
+}
+
 fn golomb_one<N>(n: N, cw: &[bool], what: &str) -> Vec<String>
 where N: num_traits::Unsigned + num_traits::PrimInt + num_traits::WrappingAdd + num_traits::WrappingSub + core::fmt::Debug {
     let c = ExpGolomb::<N>::new(); let mut out = vec![];
